@@ -4,7 +4,6 @@ package net
 
 import (
 	"context"
-	"crypto/rand"
 	"crypto/tls"
 	"crypto/x509"
 	"crypto/x509/pkix"
@@ -12,6 +11,7 @@ import (
 	"errors"
 	"math/big"
 	"net"
+	"strings"
 	"time"
 
 	"github.com/hashicorp/nodeenrollment"
@@ -19,179 +19,143 @@ import (
 	nodetls "github.com/hashicorp/nodeenrollment/tls"
 	"github.com/hashicorp/nodeenrollment/types"
 	"github.com/hashicorp/nodeenrollment/zzverif/vf"
+	"github.com/hashicorp/nodeenrollment/zzverif/vfs"
 	"google.golang.org/protobuf/proto"
-	"google.golang.org/protobuf/types/known/timestamppb"
 )
 
 func init() { VfHarnesses["VerifC17Routing"] = VerifC17Routing }
 
-// ---- marshal-based storage, like the real back ends ----
-type vfEntry struct {
-	kind int
-	id   string
-	data []byte
-}
-type vfStorage struct{ entries []vfEntry }
+type vfAddrListener struct{ *vfs.Script }
 
-func vfKind(m proto.Message) int {
-	switch m.(type) {
-	case *types.NodeInformation:
-		return 1
-	case *types.RootCertificates:
-		return 2
-	case *types.NodeCredentials:
-		return 3
-	case *types.ServerLedActivationToken:
-		return 4
-	}
-	return 0
-}
-func (s *vfStorage) Store(ctx context.Context, m nodeenrollment.MessageWithId) error {
-	b, err := proto.Marshal(m)
-	if err != nil {
-		return err
-	}
-	k := vfKind(m)
-	for i := range s.entries {
-		if s.entries[i].kind == k && s.entries[i].id == m.GetId() {
-			s.entries[i].data = b
-			return nil
-		}
-	}
-	s.entries = append(s.entries, vfEntry{k, m.GetId(), b})
-	return nil
-}
-func (s *vfStorage) Load(ctx context.Context, m nodeenrollment.MessageWithId) error {
-	k := vfKind(m)
-	for _, e := range s.entries {
-		if e.kind == k && e.id == m.GetId() {
-			return proto.Unmarshal(e.data, m)
-		}
-	}
-	return nodeenrollment.ErrNotFound
-}
-func (s *vfStorage) Remove(ctx context.Context, m nodeenrollment.MessageWithId) error { return nil }
-func (s *vfStorage) List(ctx context.Context, m proto.Message) ([]string, error)     { return nil, nil }
+func (l vfAddrListener) Addr() net.Addr { return vfAddr{} }
 
-
-type vfPeer struct {
-	vfConn
-	Protos       []string
-	Chain        [][]byte
-	HoldsLeafKey bool
-}
-type vfSeqListener struct {
-	conns []net.Conn
-	next  int
-}
-
-func (l *vfSeqListener) Accept() (net.Conn, error) {
-	if l.next >= len(l.conns) {
-		return nil, net.ErrClosed
-	}
-	l.next++
-	return l.conns[l.next-1], nil
-}
-func (l *vfSeqListener) Close() error   { return nil }
-func (l *vfSeqListener) Addr() net.Addr { return vfAddr{} }
-
-func vfMkCert(tmpl, parent *x509.Certificate, subjectKey, signerKey int) []byte {
-	priv, _ := x509.ParsePKCS8PrivateKey(vf.Pkcs8(signerKey))
-	pub, _ := x509.ParsePKIXPublicKey(vf.Pkix(subjectKey))
-	der, err := x509.CreateCertificate(rand.Reader, tmpl, parent, pub, priv)
-	if err != nil {
-		panic(err)
-	}
-	return der
-}
-
-// C17 (one sequentialised schedule): which sub-listener receives which kind of connection.
+// C17 (one sequentialised schedule per path): which sub-listener receives which connection, for every set of
+// registered sub-listeners {a specific name "special", the non-specific authenticated one, the unauthenticated one},
+// with or without native connections on the specific one, and for
+//   - an authenticated node offering one arbitrary extra protocol name (possibly "special" or one of the reserved
+//     names), listed before or after its certificate-preference entry, or
+//   - a plain TLS client of the application offering the application protocol plus one arbitrary name (possibly
+//     "special" or a reserved name).
+// The harness accepts from the sub-listener the statement designates; a connection routed anywhere else leaves the
+// run deadlocked, which the engine reports (and the native twin reproduces as a timeout).
 func VerifC17Routing() {
 	ctx := context.Background()
-	st := &vfStorage{}
+	st := &vfs.Storage{}
 	t0 := vf.Now()
-	mkRoot := func(k int, id string) (*types.RootCertificate, []byte, *x509.Certificate) {
-		tmpl := &x509.Certificate{SubjectKeyId: vf.Pkix(k), Subject: pkix.Name{CommonName: "root"}, SerialNumber: big.NewInt(1),
-			NotBefore: t0.Add(-time.Hour), NotAfter: t0.Add(time.Hour), IsCA: true, BasicConstraintsValid: true}
-		der := vfMkCert(tmpl, tmpl, k, k)
-		return &types.RootCertificate{Id: id, PublicKeyPkix: vf.Pkix(k), PrivateKeyPkcs8: vf.Pkcs8(k), PrivateKeyType: types.KEYTYPE_ED25519,
-			CertificateDer: der, NotBefore: timestamppb.New(tmpl.NotBefore), NotAfter: timestamppb.New(tmpl.NotAfter)}, der, tmpl
-	}
-	cur, curDer, curTmpl := mkRoot(0, "current")
-	next, _, _ := mkRoot(1, "next")
+	vf.ShortScenario(t0, time.Second)
+	cur, curTmpl := vfs.MkRoot("current", 0, t0.Add(-time.Hour), t0.Add(time.Hour))
+	next, _ := vfs.MkRoot("next", 1, t0.Add(-time.Hour), t0.Add(time.Hour))
 	if err := (&types.RootCertificates{Id: nodeenrollment.RootsMessageId, Current: cur, Next: next}).Store(ctx, st); err != nil {
 		panic(err)
 	}
-	nodePkix := vf.Pkix(2)
-	nodeKeyId, _ := nodeenrollment.KeyIdFromPkix(nodePkix)
-	leafDer := vfMkCert(&x509.Certificate{SubjectKeyId: nodePkix, Subject: pkix.Name{CommonName: nodeKeyId}, DNSNames: []string{nodeKeyId},
-		ExtKeyUsage: []x509.ExtKeyUsage{x509.ExtKeyUsageClientAuth}, SerialNumber: big.NewInt(2),
-		NotBefore: curTmpl.NotBefore, NotAfter: curTmpl.NotAfter}, curTmpl, 2, 0)
-	if err := (&types.NodeInformation{Id: nodeKeyId, CertificatePublicKeyPkix: nodePkix}).Store(ctx, st); err != nil {
+	nodeKeyId, _ := nodeenrollment.KeyIdFromPkix(vf.Pkix(2))
+	if err := (&types.NodeInformation{Id: nodeKeyId, CertificatePublicKeyPkix: vf.Pkix(2)}).Store(ctx, st); err != nil {
 		panic(err)
 	}
+	leaf := vfs.MkCert(&x509.Certificate{SubjectKeyId: vf.Pkix(2), Subject: pkix.Name{CommonName: nodeKeyId}, DNSNames: []string{nodeKeyId},
+		ExtKeyUsage: []x509.ExtKeyUsage{x509.ExtKeyUsageClientAuth}, SerialNumber: big.NewInt(2), NotBefore: curTmpl.NotBefore, NotAfter: curTmpl.NotAfter}, curTmpl, 2, 0)
+	// the application's own TLS identity (for clients that are not nodes)
+	appTmpl := vfs.RootTemplate(6, t0.Add(-time.Hour), t0.Add(time.Hour))
+	appKey, err := x509.ParsePKCS8PrivateKey(vf.Pkcs8(6))
+	if err != nil {
+		panic(err)
+	}
+	baseCfg := &tls.Config{NextProtos: []string{"app"}, Certificates: []tls.Certificate{{Certificate: [][]byte{vfs.MkCert(appTmpl, appTmpl, 6, 6)}, PrivateKey: appKey}}}
 
-	// client 1: an honest authenticated node offering one extra protocol name (arbitrary string)
-	extra := vf.String("extra-proto", 12)
-	vf.Assume(len(extra) > 0)
-	nonce := vf.Bytes("nonce", 32)
-	vf.Assume(len(nonce) == 32)
-	req := &types.GenerateServerCertificatesRequest{CertificatePublicKeyPkix: nodePkix, Nonce: nonce, NonceSignature: vf.SigBy(2, nonce)}
-	reqBytes, _ := proto.Marshal(req)
-	protos, _ := nodetls.BreakIntoNextProtos(nodeenrollment.AuthenticateNodeNextProtoV1Prefix, base64.RawStdEncoding.EncodeToString(reqBytes))
-	curKeyId, _ := nodeenrollment.KeyIdFromPkix(vf.Pkix(0))
-	protos = append(protos, extra, nodeenrollment.CertificatePreferenceV1Prefix+curKeyId)
-	authPeer := &vfPeer{Protos: protos, Chain: [][]byte{leafDer, curDer}, HoldsLeafKey: true}
-	authPeer.id = 1
-	// client 2: a plain TLS client of the application offering the application protocol
-	plainPeer := &vfPeer{Protos: []string{"app"}}
-	plainPeer.id = 2
-
+	name := vf.String("offered-name", 12) // the one arbitrary protocol name the client adds to its list
+	vf.Assume(vf.And(len(name) >= 1, vf.Not(strings.HasPrefix(name, "v1-nodee-"))))
+	node := vf.Bool("client-is-an-authenticated-node")
+	var peer *vfs.Peer
+	if node {
+		nonce := []byte("a-fresh-connection-nonce-32-byte")
+		reqBytes, _ := proto.Marshal(&types.GenerateServerCertificatesRequest{CertificatePublicKeyPkix: vf.Pkix(2), Nonce: nonce, NonceSignature: vf.SigBy(2, nonce)})
+		protos, _ := nodetls.BreakIntoNextProtos(nodeenrollment.AuthenticateNodeNextProtoV1Prefix, base64.RawStdEncoding.EncodeToString(reqBytes))
+		prefId, _ := nodeenrollment.KeyIdFromPkix(vf.Pkix(0))
+		pref := nodeenrollment.CertificatePreferenceV1Prefix + prefId
+		if vf.Bool("preference-entry-before-the-extra-name") {
+			protos = append(protos, pref, name)
+		} else {
+			protos = append(protos, name, pref)
+		}
+		peer = &vfs.Peer{Protos: protos, Chain: [][]byte{leaf}, HoldsLeafKey: true}
+		peer.Conn = vf.AdversaryConn(peer.Protos, peer.Chain, 2, true)
+	} else {
+		vf.Assume(name != "app")
+		peer = &vfs.Peer{Protos: []string{"app", name}}
+		peer.Conn = vf.AdversaryConn(peer.Protos, nil, 0, false)
+	}
+	baseClosed := make(chan struct{})
 	il, err := protocol.NewInterceptingListener(&protocol.InterceptingListenerConfiguration{Context: ctx, Storage: st,
-		BaseListener:         &vfSeqListener{conns: []net.Conn{authPeer, plainPeer}},
-		BaseTlsConfiguration: &tls.Config{NextProtos: []string{"app"}, Certificates: []tls.Certificate{{}}}})
+		BaseListener: vfAddrListener{&vfs.Script{Conns: []net.Conn{peer}, Errs: []error{nil}, Hold: baseClosed}}, BaseTlsConfiguration: baseCfg})
 	vf.Assert("listener-built", err == nil)
 	sl, err := NewSplitListener(il)
 	vf.Assert("split-built", err == nil)
-	authLn, _ := sl.GetListener(AuthenticatedNonSpecificNextProto)
-	unauthLn, _ := sl.GetListener(UnauthenticatedNextProto)
-	specLn, _ := sl.GetListener("special")
 
+	hasSpec, hasAuth, hasUnauth := vf.Bool("specific-listener-registered"), vf.Bool("non-specific-listener-registered"), vf.Bool("unauthenticated-listener-registered")
+	nativeSpec := vf.Bool("specific-listener-wants-native-conns")
+	var specLn, authLn, unauthLn net.Listener
+	if hasSpec {
+		specLn, _ = sl.GetListener("special", nodeenrollment.WithNativeConns(nativeSpec))
+	}
+	if hasAuth {
+		authLn, _ = sl.GetListener(AuthenticatedNonSpecificNextProto)
+	}
+	if hasUnauth {
+		unauthLn, _ = sl.GetListener(UnauthenticatedNextProto)
+	}
 	go func() { _ = sl.Start() }()
 
-	// the authenticated connection must come out of "special" iff the node offered that name, else of __AUTH__
-	var got net.Conn
-	if extra == "special" {
-		vf.Reach("routed-specific")
-		got, err = specLn.Accept()
-	} else if extra == UnauthenticatedNextProto {
-		vf.Reach("routed-to-unauth-by-own-request")
-		got, err = unauthLn.Accept()
+	// where the statement sends this connection
+	var want net.Listener
+	wantName := ""
+	if node {
+		switch {
+		case hasSpec && name == "special":
+			want, wantName = specLn, "special"
+		case hasAuth && name == AuthenticatedNonSpecificNextProto:
+			want, wantName = authLn, "auth"
+		case hasUnauth && name == UnauthenticatedNextProto: // the node itself asked for that listener's name
+			want, wantName = unauthLn, "unauth"
+		case hasAuth:
+			want, wantName = authLn, "auth"
+		}
+	} else if hasUnauth {
+		want, wantName = unauthLn, "unauth"
+	}
+	if want != nil {
+		vf.Reach("delivered-to-" + wantName)
+		got, err := want.Accept()
+		vf.Assert("connection-delivered", err == nil)
+		if err == nil {
+			var state tls.ConnectionState
+			if pc, isNative := got.(*protocol.Conn); isNative {
+				vf.Assert("native-conn-only-when-requested", wantName == "special" && nativeSpec)
+				state = pc.ConnectionState()
+			} else {
+				tc, isTls := got.(*tls.Conn)
+				vf.Assert("plain-tls-conn-unless-native", vf.And(isTls, !(wantName == "special" && nativeSpec)))
+				if isTls {
+					state = tc.ConnectionState()
+				}
+			}
+			authenticated := strings.HasPrefix(state.NegotiatedProtocol, nodeenrollment.AuthenticateNodeNextProtoV1Prefix)
+			if wantName == "unauth" && !node {
+				vf.Assert("unauthenticated-connection-negotiated-the-application-protocol", state.NegotiatedProtocol == "app")
+			} else {
+				vf.Assert("connection-from-an-authenticated-listener-is-authenticated", authenticated)
+			}
+		}
 	} else {
-		vf.Reach("routed-nonspecific")
-		got, err = authLn.Accept()
+		vf.Reach("closed-no-listener")
 	}
-	vf.Assume(vf.TimeLE(vf.Now(), t0.Add(time.Second))) // clock assumption: the whole scenario is short
-	vf.Assert("auth-conn-delivered", err == nil)
-	if err == nil {
-		tc, isTls := got.(*tls.Conn)
-		vf.Assert("plain-tls-conn-unless-native", isTls)
-		if isTls {
-			vf.Assert("delivered-conn-is-authenticated", len(tc.ConnectionState().NegotiatedProtocol) > len(nodeenrollment.AuthenticateNodeNextProtoV1Prefix))
+	vf.Quiesce()
+	close(baseClosed) // the application closes the base listener: Start returns and closes every sub-listener
+	vf.Quiesce()
+	for _, ln := range []net.Listener{specLn, authLn, unauthLn} {
+		if ln != nil {
+			_, cerr := ln.Accept()
+			vf.Assert("every-sub-listener-reports-closed", errors.Is(cerr, net.ErrClosed))
 		}
 	}
-	if extra != UnauthenticatedNextProto {
-		got2, err2 := unauthLn.Accept()
-		vf.Assert("plain-conn-delivered-to-unauth", err2 == nil)
-		if err2 == nil {
-			tc2, ok := got2.(*tls.Conn)
-			vf.Assert("unauth-conn-is-plain", vf.And(ok, tc2.ConnectionState().NegotiatedProtocol == "app"))
-		}
-	}
-	vf.Quiesce() // base listener is exhausted: Start returns and closes every sub-listener
-	_, e1 := authLn.Accept()
-	_, e2 := unauthLn.Accept()
-	_, e3 := specLn.Accept()
-	vf.Assert("all-sublisteners-closed", vf.And(errors.Is(e1, net.ErrClosed), vf.And(errors.Is(e2, net.ErrClosed), errors.Is(e3, net.ErrClosed))))
 	vf.Reach("end")
 }
